@@ -5,6 +5,7 @@
 package sqlite
 
 // ---- token = session id || HMAC(secret, session id) (C18, C08) --------------------------
+//@ spec ghost sessok
 //@ func sqlite.DB.sessionID
 //@   params db ctx
 //@   local hash = call:crypto/hmac.New#1
@@ -18,6 +19,7 @@ package sqlite
 //@   callassert New#1: @secret bytes(arg1) == bytes(secret)
 //@   callassert Write#1: @overid bytes(arg1) == bytes(id)
 //@   ensures @mac ? result1 ==> bytes(mac1) == digest(absorbed(hash)) && len(result0) == 16 && u(result0) == u(id)
+//@   ghostpost sessok(db) := ite(result1, True(), False())
 //@   ensures @nomac !result1 ==> len(result0) == 0
 
 // the token secret lives in the database only: it is (inserted if absent and then)
@@ -39,71 +41,71 @@ package sqlite
 //@ func sqlite.DB.TO0SignNonce
 //@   params db ctx
 //@   local err = call:sqlite.DB.query#1
-//@   local ok = extract1:call:sqlite.DB.sessionID#1
 //@   props C18 C08 C10(sweep)
 //@   sweep bounds,panic,make,nilmem
-//@   ensures @session ? err == nil ==> ok
+//@   assume sessok(db) != True()
+//@   ensures @session err == nil ==> sessok(db) == True()
 //@ func sqlite.DB.TO1ProofNonce
 //@   params db ctx
 //@   local err = call:sqlite.DB.query#1
-//@   local ok = extract1:call:sqlite.DB.sessionID#1
 //@   props C18 C08 C10(sweep)
 //@   sweep bounds,panic,make,nilmem
-//@   ensures @session ? err == nil ==> ok
+//@   assume sessok(db) != True()
+//@   ensures @session err == nil ==> sessok(db) == True()
 //@ func sqlite.DB.GUID
 //@   params db ctx
 //@   local err = call:sqlite.DB.query#1
-//@   local ok = extract1:call:sqlite.DB.sessionID#1
 //@   props C18 C08 C10(sweep)
 //@   sweep bounds,panic,make,nilmem
-//@   ensures @session ? err == nil ==> ok
+//@   assume sessok(db) != True()
+//@   ensures @session err == nil ==> sessok(db) == True()
 //@ func sqlite.DB.ProveDeviceNonce
 //@   params db ctx
 //@   local err = call:sqlite.DB.query#1
-//@   local ok = extract1:call:sqlite.DB.sessionID#1
 //@   props C18 C08 C10(sweep)
 //@   sweep bounds,panic,make,nilmem
-//@   ensures @session ? err == nil ==> ok
+//@   assume sessok(db) != True()
+//@   ensures @session err == nil ==> sessok(db) == True()
 //@ func sqlite.DB.SetupDeviceNonce
 //@   params db ctx
 //@   local err = call:sqlite.DB.query#1
-//@   local ok = extract1:call:sqlite.DB.sessionID#1
 //@   props C18 C08 C10(sweep)
 //@   sweep bounds,panic,make,nilmem
-//@   ensures @session ? err == nil ==> ok
+//@   assume sessok(db) != True()
+//@   ensures @session err == nil ==> sessok(db) == True()
 //@ func sqlite.DB.ReplacementGUID
 //@   params db ctx
 //@   local err = call:sqlite.DB.query#1
-//@   local ok = extract1:call:sqlite.DB.sessionID#1
 //@   props C18 C08 C10(sweep)
 //@   sweep bounds,panic,make,nilmem
-//@   ensures @session ? err == nil ==> ok
+//@   assume sessok(db) != True()
+//@   ensures @session err == nil ==> sessok(db) == True()
 //@ func sqlite.DB.ReplacementHmac
 //@   params db ctx
 //@   local err = call:sqlite.DB.query#1
-//@   local ok = extract1:call:sqlite.DB.sessionID#1
 //@   props C18 C08 C10(sweep)
 //@   sweep bounds,panic,make,nilmem
-//@   ensures @session ? err == nil ==> ok
+//@   assume sessok(db) != True()
+//@   ensures @session err == nil ==> sessok(db) == True()
 //@ func sqlite.DB.SetTO0SignNonce
 //@   params db ctx nonce
-//@   local ok = extract1:call:sqlite.DB.sessionID#1
 //@   props C18 C08
 //@   sweep bounds,nilmem
-//@   ensures @session ? err == nil ==> ok
+//@   assume sessok(db) != True()
+//@   ensures @session err == nil ==> sessok(db) == True()
 //@ func sqlite.DB.SetGUID
 //@   params db ctx guid
-//@   local ok = extract1:call:sqlite.DB.sessionID#1
 //@   props C18 C08
 //@   sweep bounds,nilmem
-//@   ensures @session ? err == nil ==> ok
+//@   assume sessok(db) != True()
+//@   ensures @session err == nil ==> sessok(db) == True()
 //@ func sqlite.DB.InvalidateToken
 //@   params db ctx
 //@   local err = extract1:call:database/sql.DB.ExecContext#1
-//@   local ok = extract1:call:sqlite.DB.sessionID#1
 //@   props C18 C08
 //@   sweep bounds,nilmem
-//@   ensures @session ? err == nil ==> ok
+//@   assume sessok(db) != True()
+//@   ensures @session err == nil ==> sessok(db) == True()
 
 // ---- expiry of rendezvous blobs (C18, C07) ----------------------------------------------------
 //@ func sqlite.DB.RVBlob
@@ -172,7 +174,168 @@ package sqlite
 //@   modifies nothing
 //@   ghostset dbinserted(db) := True()
 //@ spec ghost dbread, dbinserted
+//@ spec ghost sessinserted
 //@ func sqlite.DB.insert
 //@   params db ctx table kvs upsertOnConflict
 //@   nopaths
 //@   modifies nothing
+//@   ghostset sessinserted(db) := True()
+
+// ---- the remaining session accessors: each one succeeds only for a token whose MAC
+// verified (sessionID said ok), and consults sessionID exactly once (C18, C08) ----------
+//@ func sqlite.DB.DeviceCertChain
+//@   params db ctx
+//@   local err = call:sqlite.DB.query#1
+//@   props C18 C08 C10(sweep)
+//@   sweep bounds,panic,make,nilmem
+//@   callsites sessionID 1
+//@   assume sessok(db) != True()
+//@   ensures @session err == nil ==> sessok(db) == True()
+//@ func sqlite.DB.Devmod
+//@   params db ctx
+//@   local err = call:cbor.Unmarshal#1 | call:cbor.Unmarshal#2 | call:sqlite.DB.query#1
+//@   props C18 C08 C10(sweep)
+//@   sweep bounds,panic,make,nilmem
+//@   callsites sessionID 1
+//@   assume sessok(db) != True()
+//@   ensures @session err == nil ==> sessok(db) == True()
+//@ func sqlite.DB.IncompleteVoucherHeader
+//@   params db ctx
+//@   local err = call:cbor.Unmarshal#1 | call:sqlite.DB.query#1
+//@   props C18 C08 C10(sweep)
+//@   sweep bounds,panic,make,nilmem
+//@   callsites sessionID 1
+//@   assume sessok(db) != True()
+//@   ensures @session err == nil ==> sessok(db) == True()
+//@ func sqlite.DB.MTU
+//@   params db ctx
+//@   local err = call:sqlite.DB.query#1
+//@   props C18 C08 C10(sweep)
+//@   sweep bounds,panic,make,nilmem
+//@   callsites sessionID 1
+//@   assume sessok(db) != True()
+//@   ensures @session err == nil ==> sessok(db) == True()
+//@ func sqlite.DB.RvInfo
+//@   params db ctx
+//@   local err = call:cbor.Unmarshal#1 | call:sqlite.DB.query#1
+//@   props C18 C08 C10(sweep)
+//@   sweep bounds,panic,make,nilmem
+//@   callsites sessionID 1
+//@   assume sessok(db) != True()
+//@   ensures @session err == nil ==> sessok(db) == True()
+//@ func sqlite.DB.SetDeviceCertChain
+//@   params db ctx chain
+//@   local err = call:sqlite.DB.insert#1
+//@   props C18 C08 C10(sweep)
+//@   sweep bounds,panic,make,nilmem
+//@   callsites sessionID 1
+//@   assume sessok(db) != True()
+//@   ensures @session err == nil ==> sessok(db) == True()
+//@ func sqlite.DB.SetDeviceSelfInfo
+//@   params db ctx info
+//@   local err = call:sqlite.DB.update#1
+//@   props C18 C08 C10(sweep)
+//@   sweep bounds,panic,make,nilmem
+//@   callsites sessionID 1
+//@   assume sessok(db) != True()
+//@   ensures @session err == nil ==> sessok(db) == True()
+//@ func sqlite.DB.SetDevmod
+//@   params db ctx devmod modules complete
+//@   local err = extract1:call:cbor.Marshal#1 | extract1:call:cbor.Marshal#2
+//@   props C18 C08 C10(sweep)
+//@   sweep bounds,panic,make,nilmem
+//@   callsites sessionID 1
+//@   assume sessok(db) != True()
+//@   ensures @session err == nil ==> sessok(db) == True()
+//@ func sqlite.DB.SetIncompleteVoucherHeader
+//@   params db ctx ovh
+//@   local err = extract1:call:cbor.Marshal#1
+//@   props C18 C08 C10(sweep)
+//@   sweep bounds,panic,make,nilmem
+//@   callsites sessionID 1
+//@   assume sessok(db) != True()
+//@   ensures @session err == nil ==> sessok(db) == True()
+//@ func sqlite.DB.SetMTU
+//@   params db ctx mtu
+//@   props C18 C08 C10(sweep)
+//@   sweep bounds,panic,make,nilmem
+//@   callsites sessionID 1
+//@   assume sessok(db) != True()
+//@   ensures @session err == nil ==> sessok(db) == True()
+//@ func sqlite.DB.SetProveDeviceNonce
+//@   params db ctx nonce
+//@   props C18 C08 C10(sweep)
+//@   sweep bounds,panic,make,nilmem
+//@   callsites sessionID 1
+//@   assume sessok(db) != True()
+//@   ensures @session err == nil ==> sessok(db) == True()
+//@ func sqlite.DB.SetReplacementGUID
+//@   params db ctx guid
+//@   props C18 C08 C10(sweep)
+//@   sweep bounds,panic,make,nilmem
+//@   callsites sessionID 1
+//@   assume sessok(db) != True()
+//@   ensures @session err == nil ==> sessok(db) == True()
+//@ func sqlite.DB.SetReplacementHmac
+//@   params db ctx hmac
+//@   props C18 C08 C10(sweep)
+//@   sweep bounds,panic,make,nilmem
+//@   callsites sessionID 1
+//@   assume sessok(db) != True()
+//@   ensures @session err == nil ==> sessok(db) == True()
+//@ func sqlite.DB.SetRvInfo
+//@   params db ctx rvInfo
+//@   local err = extract1:call:cbor.Marshal#1
+//@   props C18 C08 C10(sweep)
+//@   sweep bounds,panic,make,nilmem
+//@   callsites sessionID 1
+//@   assume sessok(db) != True()
+//@   ensures @session err == nil ==> sessok(db) == True()
+//@ func sqlite.DB.SetSetupDeviceNonce
+//@   params db ctx nonce
+//@   props C18 C08 C10(sweep)
+//@   sweep bounds,panic,make,nilmem
+//@   callsites sessionID 1
+//@   assume sessok(db) != True()
+//@   ensures @session err == nil ==> sessok(db) == True()
+//@ func sqlite.DB.SetTO1ProofNonce
+//@   params db ctx nonce
+//@   props C18 C08 C10(sweep)
+//@   sweep bounds,panic,make,nilmem
+//@   callsites sessionID 1
+//@   assume sessok(db) != True()
+//@   ensures @session err == nil ==> sessok(db) == True()
+//@ func sqlite.DB.SetXSession
+//@   params db ctx suite sess
+//@   local err = extract1:call:encoding.BinaryMarshaler.MarshalBinary#1
+//@   props C18 C08 C10(sweep)
+//@   sweep bounds,panic,make,nilmem
+//@   callsites sessionID 1
+//@   assume sessok(db) != True()
+//@   ensures @session err == nil ==> sessok(db) == True()
+//@ func sqlite.DB.XSession
+//@   params db ctx
+//@   local err = call:encoding.BinaryUnmarshaler.UnmarshalBinary#1 | call:sqlite.DB.query#1
+//@   props C18 C08 C10(sweep)
+//@   sweep bounds,panic,make,nilmem
+//@   callsites sessionID 1
+//@   assume sessok(db) != True()
+//@   ensures @session err == nil ==> sessok(db) == True()
+
+// a new token is the random session id followed by its MAC under the database's secret,
+// and the session row is stored before the token is handed out (C18, C08)
+//@ func sqlite.DB.NewToken
+//@   params db ctx protocol
+//@   local id = Slice#2
+//@   local secret = extract0:call:sqlite.DB.loadOrStoreSecret#1
+//@   props C18 C08 C10(sweep)
+//@   sweep bounds,panic,make,nilmem
+//@   callsites loadOrStoreSecret 1
+//@   callsites insert 1
+//@   callsites hmac.New 1
+//@   callassert hmac.New#1: @secret bytes(arg1) == bytes(secret)
+//@   callassert Write#1: @overid bytes(arg1) == bytes(id)
+//@   callassert Sum#1: @append u(arg1) == u(id)
+//@   callassert insert#1: @table arg2 == "sessions"
+//@   callassert EncodeToString#1: @inserted sessinserted(db) == True()
+//@   assume sessinserted(db) != True()
